@@ -507,6 +507,9 @@ impl Hooks for Ctl {
             g.tokens.swap_remove(p);
             return true;
         }
+        // a worker that waits in epoll without a timeout is still woken by the kernel when one of its descriptors
+        // becomes ready; the virtual wait cannot see that, so (with real I/O in play) it polls again after a while
+        let deadline = if is_poller(key) && deadline.is_none() && g.poll_io { Some(g.now + 10_000_000) } else { deadline };
         g.threads[me].st = TS::Blocked { key, deadline };
         g.threads[me].woken = false;
         g.threads[me].spinning = false;
